@@ -23,6 +23,9 @@
  *   wait=both|client            who runs while the first coap_send() waits (prog mode): both contexts (default) or the client
  *                               only (a slow server: the 5 s pass, the requests are queued in CONNECTING / HANDSHAKE state)
  *   rel=now                     the application releases the session right after queueing (default: at quiescence)
+ *   bm=0|1                      1: the client context uses COAP_BLOCK_USE_LIBCOAP: on a reliable transport EVERY request gets an
+ *                               lg_crcv entry in coap_send() (event tnewb, state …,lg=<tokens, first entry first>)
+ *   q letters                   C N as in dtls.c, O / M = the same with an Observe (register) option
  *
  * output: segments joined by " ; ":  <who>:<event>/<oracle answers>><outputs>|<state>
  *   who     c = client session, s = server endpoint / the accepted server session
@@ -94,13 +97,25 @@ static unsigned delayq_len(const coap_session_t *s) {
   return n;
 }
 static void seg_close(void) {
-  char st[96];
+  char st[200];
   coap_session_t *s;
   if (!s_open) return;
   s = who_session(s_who);
-  if (s) snprintf(st, sizeof(st), "st=%d,tls=%d,dq=%u,ca=%u,if=%u,df=%d", (int)s->state, s->tls ? 1 : 0, delayq_len(s), s->con_active,
-                  inflight_of(s), s->doing_first ? 1 : 0);
-  else strcpy(st, "gone");
+  if (s) {
+    snprintf(st, sizeof(st), "st=%d,tls=%d,dq=%u,ca=%u,if=%u,df=%d", (int)s->state, s->tls ? 1 : 0, delayq_len(s), s->con_active,
+             inflight_of(s), s->doing_first ? 1 : 0);
+    if (s->type == COAP_SESSION_TYPE_CLIENT && (s->block_mode & COAP_BLOCK_USE_LIBCOAP)) {
+      size_t l = strlen(st);
+      l += (size_t)snprintf(st + l, sizeof(st) - l, ",lg=");
+      if (!s->lg_crcv) snprintf(st + l, sizeof(st) - l, "-");
+      for (const coap_lg_crcv_t *g = s->lg_crcv; g && l + 20 < sizeof(st); g = g->next) {
+        static const char hx[] = "0123456789abcdef";
+        if (g != s->lg_crcv) st[l++] = '.';
+        for (size_t i = 0; g->app_token && i < g->app_token->length && i < 8; i++) { st[l++] = hx[g->app_token->s[i] >> 4]; st[l++] = hx[g->app_token->s[i] & 15]; }
+        st[l] = 0;
+      }
+    }
+  } else strcpy(st, "gone");
   if (nsegs++) out_raw(" ; ", 3);
   out_raw(s_head, strlen(s_head));
   out_raw("/", 1); out_raw(s_orc[0] ? s_orc : "-", s_orc[0] ? strlen(s_orc) : 1);
@@ -140,7 +155,15 @@ static void strm_view(char *o, size_t cap, const uint8_t *b, size_t n, int with_
   if (hdr + tkl + len != n) goto junk;        /* not exactly one whole message */
   hex_tok(tk, b + hdr, tkl);
   pl[0] = 0;
-  for (i = hdr + tkl; with_payload && i < n; i++) if (b[i] == 0xFF) { hex_tok(pl, b + i + 1, n - i - 1 > 16 ? 16 : n - i - 1); break; }
+  for (i = hdr + tkl; with_payload && i < n;) {          /* walk the options to the payload marker */
+    size_t dl, ll;
+    if (b[i] == 0xFF) { hex_tok(pl, b + i + 1, n - i - 1 > 16 ? 16 : n - i - 1); break; }
+    dl = b[i] >> 4; ll = b[i] & 15; i++;
+    if (dl == 13) i += 1; else if (dl == 14) i += 2;
+    if (ll == 13) { if (i >= n) break; ll = (size_t)b[i] + 13; i += 1; }
+    else if (ll == 14) { if (i + 1 >= n) break; ll = (((size_t)b[i] << 8) | b[i + 1]) + 269; i += 2; }
+    i += ll;
+  }
   if (pl[0]) snprintf(o, cap, "C.%d.0.%s.%s", b[1 + ext], tk, pl);
   else snprintf(o, cap, "C.%d.0.%s", b[1 + ext], tk);
   return;
@@ -535,7 +558,7 @@ static void step(char *line) {
   char *w[40];
   int n = h_words(line, w, 40);
   char qs[8] = "";
-  int rel_now = 0, final_state = -1, acc_early = 0;
+  int rel_now = 0, final_state = -1, acc_early = 0, bm = 0;
   if (n < 1 || strcmp(w[0], "tls")) { printf("bad-op"); return; }
   memcpy(c_id, "id", 3); c_idl = 2; memcpy(c_key, "key", 4); c_keyl = 3; memcpy(s_key, "key", 4); s_keyl = 3;
   have_hint = 0; s_hintl = 0; have_keytab = 0; nkeytab = 0; have_snitab = 0; nsnitab = 0; ih_mode = 0; nih = 0; have_sni = 0;
@@ -563,7 +586,8 @@ static void step(char *line) {
       }
     }
     else if (!strcmp(k, "sni")) { size_t l; have_sni = strcmp(v, "-") != 0; ok = unhex_into(v, (uint8_t *)c_sni, sizeof(c_sni), &l); }
-    else if (!strcmp(k, "q")) { if (strlen(v) > 3 || strspn(v, "CN") != strlen(v)) ok = 0; else strcpy(qs, v); }
+    else if (!strcmp(k, "q")) { if (strlen(v) > 3 || strspn(v, "CNOM") != strlen(v)) ok = 0; else strcpy(qs, v); }
+    else if (!strcmp(k, "bm")) { if (!strcmp(v, "1")) bm = 1; else if (!strcmp(v, "0")) bm = 0; else ok = 0; }
     else if (!strcmp(k, "conn")) { if (!strcmp(v, "now")) conn_now = 1; else if (!strcmp(v, "prog")) conn_now = 0; else ok = 0; }
     else if (!strcmp(k, "acc")) { if (!strcmp(v, "early")) acc_early = 1; else if (!strcmp(v, "late")) acc_early = 0; else ok = 0; }
     else if (!strcmp(k, "wait")) { if (!strcmp(v, "both")) wait_who = "cs"; else if (!strcmp(v, "client")) wait_who = "c"; else ok = 0; }
@@ -609,6 +633,7 @@ static void step(char *line) {
   coap_register_event_handler(g_cli, on_event);
   coap_register_nack_handler(g_cli, on_nack);
   coap_register_response_handler(g_cli, on_response);
+  if (bm) coap_context_set_block_mode(g_cli, COAP_BLOCK_USE_LIBCOAP);
   {
     coap_dtls_cpsk_t cp;
     coap_address_t sa;
@@ -622,11 +647,13 @@ static void step(char *line) {
     sa.addr.sin.sin_family = AF_INET;
     sa.addr.sin.sin_addr.s_addr = htonl(INADDR_LOOPBACK);
     sa.addr.sin.sin_port = g_ep->bind_addr.addr.sin.sin_port;
-    seg_begin('c', "tnew:%s", conn_now ? "now" : "prog");
+    seg_begin('c', "tnew%s:%s", bm ? "b" : "", conn_now ? "now" : "prog");
     g_cs = coap_new_client_session_psk2(g_cli, NULL, &sa, COAP_PROTO_TLS, &cp);
     if (!g_cs) { g_cs_gone = 1; strcpy(s_head, "c:tnew:fail"); }
-    else if (conn_now && (g_cs->sock.flags & COAP_SOCKET_WANT_CONNECT)) strcpy(s_head, "c:tnew:prog");
-    else if (!conn_now && !(g_cs->sock.flags & COAP_SOCKET_WANT_CONNECT)) strcpy(s_head, "c:tnew:now");
+    else if (conn_now && (g_cs->sock.flags & COAP_SOCKET_WANT_CONNECT)) snprintf(s_head, sizeof(s_head), "c:tnew%s:prog", bm ? "b" : "");
+    else if (!conn_now && !(g_cs->sock.flags & COAP_SOCKET_WANT_CONNECT)) snprintf(s_head, sizeof(s_head), "c:tnew%s:now", bm ? "b" : "");
+    /* keep libcoap's block-mode state tokens away from the harness' tokens 01 02 03 (see dtls.c) */
+    if (g_cs && bm) { static const uint8_t seed[4] = {0xd0, 0, 0, 0}; coap_session_init_token(g_cs, sizeof(seed), seed); }
     seg_close();
   }
   if (g_cs) {
@@ -637,8 +664,12 @@ static void step(char *line) {
       uint8_t tok[1] = {(uint8_t)(i + 1)};
       coap_pdu_t *p;
       coap_mid_t mid = coap_new_message_id(g_cs);
-      p = coap_pdu_init(qs[i] == 'C' ? COAP_MESSAGE_CON : COAP_MESSAGE_NON, COAP_REQUEST_CODE_GET, mid, 256);
+      p = coap_pdu_init(qs[i] == 'C' || qs[i] == 'O' ? COAP_MESSAGE_CON : COAP_MESSAGE_NON, COAP_REQUEST_CODE_GET, mid, 256);
       coap_add_token(p, 1, tok);
+      if (qs[i] == 'O' || qs[i] == 'M') {
+        uint8_t obuf[4];
+        coap_add_option(p, COAP_OPTION_OBSERVE, coap_encode_var_safe(obuf, sizeof(obuf), COAP_OBSERVE_ESTABLISH), obuf);
+      }
       coap_add_option(p, COAP_OPTION_URI_PATH, 1, (const uint8_t *)"r");
       coap_add_data(p, 8, q_payload[i]);
       snprintf(pend_send, sizeof(pend_send), "tsend:%c%d:%02x", qs[i], (int)(uint16_t)mid, tok[0]);
